@@ -120,6 +120,24 @@ func parseScenarios(tier string) []hx.Scenario {
 			for _, s := range specs {
 				resetGlobals()
 				fresh[s.String()] = observe(s)
+				if ch != 0 {
+					continue
+				}
+				// validation on fresh state: a request that does not match the reservation (token, invoke id, version)
+				// is refused; a matching one without optional headers gets the defaults
+				got := fresh[s.String()]
+				res.Evaluations++
+				switch {
+				case s.Token != "match" && strings.HasPrefix(got, "err=<nil>"):
+					res.Violations = append(res.Violations, hx.ViolationRec{Property: "C17", Scenario: name, Clause: "a", Sig: "not-validated:" + s.Token,
+						Msg: fmt.Sprintf("request [%s] does not match the reservation (%s) but was accepted: %s", s, s.Token, got), Input: []string{s.String()}})
+				case s.Token == "match" && s.MaxPayload == "" && s.Mode == "" && s.Rate == "" && s.Burst == "":
+					want := fmt.Sprintf(" max=%d mode=%s", interop.MaxPayloadSize, interop.InvokeResponseModeBuffered)
+					if !strings.HasPrefix(got, "err=<nil>") || !strings.HasSuffix(got, want) {
+						res.Violations = append(res.Violations, hx.ViolationRec{Property: "C17", Scenario: name, Clause: "a", Sig: "defaults-not-applied",
+							Msg: fmt.Sprintf("request [%s] without optional headers is handled as %s, expected acceptance with%s", s, got, want), Input: []string{s.String()}})
+					}
+				}
 			}
 			check := func(hist []reqSpec) {
 				resetGlobals()
